@@ -1019,7 +1019,7 @@ pub extern "C" fn send_time_limit(fd: c_int) -> u64 {
                 panic!("getsockopt failed: {error}");
             }
             let time_limit = get_time_limit(&tv);
-            assert!(SEND_TIME_LIMIT.insert(fd, time_limit).is_none());
+            _ = SEND_TIME_LIMIT.insert(fd, time_limit);
             time_limit
         },
         |v| *v.value(),
@@ -1048,7 +1048,7 @@ pub extern "C" fn recv_time_limit(fd: c_int) -> u64 {
                 panic!("getsockopt failed: {error}");
             }
             let time_limit = get_time_limit(&tv);
-            assert!(RECV_TIME_LIMIT.insert(fd, time_limit).is_none());
+            _ = RECV_TIME_LIMIT.insert(fd, time_limit);
             time_limit
         },
         |v| *v.value(),
